@@ -392,6 +392,62 @@ def oracle_names_current(real: Real, part, hist_id, step):
                         part.fail(f"stale-tensor-name after {step['op']}", "tensor_name is not the current value name", {"history": hist_id, "step": step})
 
 
+def real_facts(real: Real) -> dict:
+    """DevOK / Named evaluated on the real objects (independent of the model)."""
+    devok = True
+    named = True
+    for n in real.nodes:
+        io = {id(x) for x in list(n.inputs) + list(n.outputs) if x is not None}
+        seen_cfg = set()
+        for nc in n.device_configurations:
+            c = nc.configuration
+            if c is None or id(c) in seen_cfg:
+                devok = False
+                continue
+            seen_cfg.add(id(c))
+            if nc.pipeline_stage is not None and nc.pipeline_stage < 0:
+                devok = False
+            seen_val = set()
+            for s in nc.sharding_specs:
+                v = s.value
+                if v is None or id(v) not in io or id(v) in seen_val:
+                    devok = False
+                    continue
+                seen_val.add(id(v))
+                if not v.name:
+                    named = False
+                r = _rank(v)
+                axes = []
+                for d in s.sharded_dims:
+                    if r is not None and not (-r <= d.axis < r):
+                        devok = False
+                    axes.append(_norm(r, d.axis))
+                    if any(ss.num_shards < 1 for ss in d.simple_shardings):
+                        devok = False
+                if len(set(axes)) != len(axes):
+                    devok = False
+                if any(not (0 <= di < c.num_devices) for di in s.device):
+                    devok = False
+    silent = True
+    only_names = True
+    for m in real.models:
+        reg = m.device_configurations
+        names = [c.name for c in reg]
+        if any(not nm for nm in names) or len(set(names)) != len(names):
+            devok = False
+        regids = {id(c) for c in reg}
+        for n in m.graph:
+            for nc in n.device_configurations:
+                if nc.configuration is None or id(nc.configuration) not in regids:
+                    devok = False
+        kinds = real.check_kinds(m)
+        if kinds:
+            silent = False
+        if any(k != "valEmptyName" for k in kinds):
+            only_names = False
+    return {"devok": devok, "named": named, "silent": silent, "only_names": only_names}
+
+
 def expected_after_drop(real: Real, before_dev, node):
     """before_dev filtered to the specs whose target is still an input/output of `node`."""
     io = {real.vid[id(x)] for x in list(node.inputs) + list(node.outputs) if x is not None}
@@ -656,7 +712,7 @@ def run_history(seed: int, strict: bool, length: int, part: Part, fixed_ops=None
         after = real.state()
         prev_state = after
         ops.append(op)
-        steps.append({"res": res, "out": out, "state": after})
+        steps.append({"res": res, "out": out, "state": after, "facts": real_facts(real)})
         part.count(f"op={k}:{res}")
         if res == "ok" and k in ("shard", "setStage"):
             annotated = True
@@ -733,7 +789,31 @@ def compare(ops, steps, part: Part, info):
         part.disagree("model driver error", {"info": info, "ops": ops}, out, None)
         return
     msteps = out["steps"]
+    pre_ok = True  # the model's in-alphabet condition `Pre` held for every operation so far
     for i, (op, st, ms) in enumerate(zip(ops, steps, msteps)):
+        pre_ok = pre_ok and bool(ms.get("pre"))
+        f = st["facts"]
+        case = {"info": info, "ops": ops[: i + 1]}
+        if info.get("strict") and not ms.get("pre"):
+            part.disagree(f"strict generator produced {op['op']} outside the model's Pre", case, ms.get("pre"), True)
+            return
+        if ms.get("devok") != f["devok"]:
+            part.disagree(f"DevOK (Lean) != DevOK (oracle on real objects) after {op['op']}", case, ms.get("devok"), f["devok"])
+            return
+        if ms.get("named") != f["named"]:
+            part.disagree(f"Named (Lean) != Named (oracle) after {op['op']}", case, ms.get("named"), f["named"])
+            return
+        if pre_ok:
+            part.count("steps_in_alphabet")
+            # C19_step / C19_checker_* transferred to the real code: Pre along the history => DevOK, checker silent
+            if not f["devok"]:
+                part.fail(f"DevOK broken by in-alphabet {op['op']}", "an in-alphabet history leaves a dangling/ill-formed annotation", case)
+            if not f["only_names"]:
+                part.fail(f"checker-structural-error after in-alphabet {op['op']}", "the internal check reports a structural violation", case)
+            if f["named"] and not f["silent"]:
+                part.fail(f"checker-not-silent after in-alphabet {op['op']}", "the internal check reports something although all sharded values are named", case)
+        else:
+            part.count("steps_outside_alphabet")
         if ms.get("res") != st["res"]:
             part.disagree(f"outcome of {op['op']} differs", {"info": info, "ops": ops[: i + 1]}, ms.get("res"), st["res"])
             return
